@@ -96,7 +96,8 @@ def gen_programs(rng, thorough):
     for t, a in [("'a {} b {}'", ["$.a", "'z'"]), ("'\\{{}\\}'", ["$.s"]), ("'{0.__class__}'", ["'q'"]), ("'{}'", []), ("'x'", ["1"]), ("'{} {}'", ["$.arr", "null"]),
                  ("'it\\'s {}'", ["true"]), ("'a\\\\b'", []), ("'{'", []), ("'}'", []), ("$.s", []), ("1", ["1"])]:
         P.append(({"out.$": "States.Format(%s)" % ", ".join([t] + a)}, None))
-    for t in ["States.UUID", "States.UUID()", "States.Nope(1)", "func(1)", "input(1)", "States.Array(1", "States.Array(1))", "States.Array('a)", "States.Array(1,,2)",
+    for t in ["States.MathRandom(5, 5)", "States.MathRandom(9, 1)", "States.MathRandom(1, 5, $.o)", "States.MathRandom(1, 5, $.arr)", "States.MathRandom(1, 5, null)", "States.MathRandom('a', 5)",
+              "States.UUID", "States.UUID()", "States.Nope(1)", "func(1)", "input(1)", "States.Array(1", "States.Array(1))", "States.Array('a)", "States.Array(1,,2)",
               "States.Array(*)", "States.Array(1, *, 2)", "States.MathAdd(1)", "States.MathAdd('a', 1)", "States.ArrayLength(1)", "States.Base64Encode('hello')",
               "States.Base64Encode(1)", "States.JsonToString($.o)", "States.Array(f123.45)", "x", "", "States.Array( )", "States.Array()", " States.Array(1) ",
               "States.Array(States.Array(States.Array(States.Array(1))))", "States.Array('a,b', 'c)d', '(', States.MathAdd(1, 2))", "States.States.Array(1)",
